@@ -2479,3 +2479,51 @@ for _nm, _lo, _hi in (('is_ascii_digit', 48, 57), ('is_ascii_lowercase', 97, 122
                       ('is_ascii', 0, 127)):
     for _pre in ('core', 'std'):
         TABLE['%s::char::methods::<impl char>::%s' % (_pre, _nm)] = _char_in_range(_lo, _hi)
+
+# arrays index like slices (`arr[i]`, `&arr[..n]` go through <[T; N] as Index<I>>::index)
+for _p in ('std::array::<impl std::ops::Index<I> for [T; N]>::index', 'core::array::<impl std::ops::Index<I> for [T; N]>::index',
+           'core::array::<impl core::ops::Index<I> for [T; N]>::index'):
+    TABLE[_p] = index3
+
+
+@summary('std::iter::Iterator::nth')
+def iter_nth(I, st, fr, t, a):
+    """`it.nth(n)` for a known n: over a filtered walk of the history list the result is Some exactly when the number of matching
+    entries is >= n + 1 (the same count term and comparison `filter(..).count() >= n + 1` produces, so the repetition rules see one
+    canonical "seen k times" predicate); over a sequence of known items it is the n-th item.  The iterator is dead afterwards."""
+    r0 = a[0]
+    it = I.read_at(st, r0.cell, r0.path) if isinstance(r0, Ref) else r0
+    n = a[1]
+    if not (isinstance(n, BV) and n.known()):
+        raise from_undecided()('nth of a symbolic position')
+    k = n.uval()
+    if isinstance(it, Struct) and it.ty == '$Filter' and isinstance(it.fields[0], Struct) and it.fields[0].ty.startswith('linked_list::Iter'):
+        cnt, st = filter_count(I, st, fr, t, [it])
+        ge = I.binop('Ge', cnt, BV.const(k + 1, 64), fr.fname if fr is not None else None, t.get('at'))
+        _consume(I, st, r0)
+        elem = Ref(('static', 'histelem'))
+        return I.merge(ge.bits[0], some(elem, ret_ty(I, fr, t) or OPT), none(ret_ty(I, fr, t) or OPT)), st
+    items, st = drain(I, st, it)
+    if all(x[0] == 'elem' for x in items):
+        _consume(I, st, r0)
+        ty = ret_ty(I, fr, t) or OPT
+        return (some(items[k][1], ty) if k < len(items) else none(ty)), st
+    raise from_undecided()('nth over conditional items')
+
+
+def _consume(I, st, r0):
+    """an iterator advanced by an amount this analysis does not track is dead: any later use is undecided"""
+    if isinstance(r0, Ref):
+        dead = Top('iterator consumed by nth')
+        if r0.path:
+            st.store[r0.cell] = I.update(st.store[r0.cell], r0.path, dead)
+        else:
+            st.store[r0.cell] = dead
+
+# arrays by value: `for x in [a, b, c]` (items are moved out, like Vec::into_iter)
+for _k in ('std::array::iter::<impl std::iter::IntoIterator for [T; N]>::into_iter',
+           'core::array::iter::<impl std::iter::IntoIterator for [T; N]>::into_iter',
+           'core::array::iter::<impl core::iter::IntoIterator for [T; N]>::into_iter'):
+    TABLE[_k] = vec_into_iter
+TABLE['<std::array::IntoIter<T, N> as std::iter::Iterator>::next'] = TABLE['<std::vec::IntoIter<T, A> as std::iter::Iterator>::next']
+TABLE['<core::array::IntoIter<T, N> as std::iter::Iterator>::next'] = TABLE['<std::vec::IntoIter<T, A> as std::iter::Iterator>::next']
